@@ -93,6 +93,15 @@ func (v *PacketDslVisitorImpl) VisitPacket(ctx *gen.PacketContext) interface{} {
 			switch c := decl.(type) {
 			case *gen.RefMetaDataDeclarationContext:
 				result := v.VisitRefMetaDataDeclaration(c).(model.MetaData)
+				if result.Attr == nil {
+					// the entry it refers to is not declared (before it): there is no type to take over
+					v.BinModel.AddSyntaxError(&model.SyntaxError{
+						Line:   result.Line,
+						Column: result.Column,
+						Msg:    "Unknown metadata type " + c.GetTyp().GetText() + " for " + result.Name,
+					})
+					continue
+				}
 				v.BinModel.AddMetaData(result)
 			case *gen.MetaDataDeclarationContext:
 				result := v.metaDataDeclarationToMetaData(c).(model.MetaData)
